@@ -259,10 +259,11 @@ func judgeC14(hi *Hist) []*Violation {
 				}
 				seen[b] = true
 			}
-			// bars that can not have left the container must be listed (a cycle that failed with a render
-			// error does not hand its bars back: after an injected fault only the count of values is judged)
+			// bars that can not have left the container must be listed (a cycle that failed with a filler
+			// error does not hand its bars back: after such a fault only the count of values is judged;
+			// a failing output write comes after the bars have been handed back)
 			for _, bf := range facts {
-				if len(hi.Sc.Faults) > 0 {
+				if len(hi.Sc.Faults) > 0 && hi.Sc.Faults[0].Site != h.FaultOutWrite && hi.Sc.Faults[0].Site != h.FaultOutShort {
 					break
 				}
 				if bf.Added && !bf.Queued && !mayBeRemovable(hi, bf) && !poppable(hi, bf) && !seen[bf.Idx] && e.A == 1 {
